@@ -425,6 +425,9 @@ def curated():
     A(('arr', string, 3)); A(('arr', P('double'), 1)); A(('carr', string, 3)); A(('arr', ('pair', u8, string), 3))
     A(('vec', ('vec', ('vec', i32))))
     A(('vec', ('arr', u16, 3)))
+    # arrays nested in arrays (outer ARY of inner BIN / ARY), as structure members and on their own
+    A(p.struct([('m', ('carr', ('carr', i16, 3), 2)), ('s', ('arr', ('arr', string, 2), 2)), ('t', u8)], name='StNest'))
+    A(('arr', ('carr', u32, 2), 3)); A(p.lbuf(('arr', u8, 2), 3, 'std::uint8_t', storage='carr', name='LbOfArr'))
     # pair / tuple
     A(('pair', i32, string)); A(('pair', ('vec', u8), ('pair', P('bool'), P('double'))))
     A(('tup', [])); A(('tup', [u64])); A(('tup', [i8, string, ('vec', i16), P('float'), ('enum', 'EnU32')]))
